@@ -256,3 +256,23 @@ def _(v):
         from chempy.units import default_units as u
         withu = v.call(fn, D * 1e4 * u.cm ** 2 / u.s, z, T * u.K, None, u)
         v.prove("same_physical_value_any_diffusivity_unit", v.eq(si(v, withu, u.m ** 2 / u.volt / u.s), plain, rel=1e-9))
+
+
+@harness("C19", "water_density.reference_temperature", functions=["chempy.properties.water_density_tanaka_2001:water_density"], div_mode="assume", samples=40)
+def _(v):
+    """the optional T0 (temperature that counts as 0 degC, e.g. T0=0 for input in Celsius): value and range warning depend on T - T0 only"""
+    from chempy.properties.water_density_tanaka_2001 import water_density
+    T0 = v.real("T0", lo=-10, hi=400)
+    t = v.real("t_above_T0", lo=-30, hi=80)
+    if not v.symbolic:
+        t = v.choice("t_edge", [t, 0, 40, -0.01, 40.01, 0.01, 39.99])
+        T0 = v.choice("T0_choice", [T0, 0, 273.15])
+    warn = v.bool("warn")
+    r = v.call(water_density, T0 + t, T0=T0, warn=warn)
+    v.prove_identity("value_depends_on_T_minus_T0", r, tanaka(t + F(273.15), v), rel=1e-9)
+    if v.symbolic:
+        v.prove("warned_iff_outside_0_to_40_above_T0", SP.iff(_warned(v), SP.conj([warn, SP.disj([t < 0, t > 40])])))
+    else:
+        # float: (T0 + t) - T0 may differ from t in the last bit exactly at the edges
+        if abs(t) > 1e-9 and abs(t - 40) > 1e-9:
+            v.prove("warned_iff_outside_0_to_40_above_T0", _warned(v) == (bool(warn) and (t < 0 or t > 40)))
